@@ -866,6 +866,28 @@ def build_fn(ctx, unit, fs):
         fn_label = fs.opts.get("as") or ("arm_" + re.sub(r"\W+", "_", fs.opts["arm_state"] + "_" + fs.opts["arm_pat"]))
         it.name = fn_label
         parent_impl = fs.opts.get("impl_as", parent_impl).replace("~", " ")
+    if fs.opts.get("slice_loop"):
+        # BLOCK SLICING: the body block of the N-th loop of a function becomes a synthetic function whose parameters are
+        # the variables the block reads (declared in the unit: sparams=, sret=, stail=). What this drops: the loops around
+        # the block and every statement replaced by an O1 rewrite inside it; the block text itself is the real code.
+        lps = find_loops(sf, it.body_open, it.body_close)
+        ordn = int(fs.opts["slice_loop"])
+        if ordn > len(lps):
+            raise LostAnchor(f"{fs.path}: slice_loop #{ordn} not found (function has {len(lps)} loops)")
+        kw, _ins, _blo, _bhi, lkind = lps[ordn - 1]
+        if lkind == "for_each":
+            raise UnitSyntaxError("slice_loop on for_each is not supported")
+        j = kw + 1
+        while toks[j].text != "{":
+            j = sf.pair[j] + 1 if toks[j].text in ("(", "[") else j + 1
+        bl, bh = j, sf.pair[j]
+        fake = rustlex.Item("fn", "slice", toks[bl].start, toks[bh].end, toks[bl].start, bl, bh + 1, bl, bh, "")
+        arm = dict(item=fake, pre="", pre_line=0, tail=fs.opts.get("stail", "").replace("~", " "), tail_line=sf.line_of(toks[bh].start),
+                   params=fs.opts["sparams"].replace("~", " "), ret=fs.opts.get("sret", "()").replace("~", " "))
+        it = fake
+        fn_label = fs.opts.get("as") or f"{it.name}_loop{ordn}_body"
+        it.name = fn_label
+        parent_impl = fs.opts.get("impl_as", parent_impl).replace("~", " ")
     has_body = it.body_open is not None
     sig_end_tok = it.body_open if has_body else it.tok_hi - 1   # `{` or `;`
     ctx.foreach_iter = {}
@@ -1112,7 +1134,7 @@ def build_fn(ctx, unit, fs):
         extra = (", " + bind.replace("~", " ")) if bind else ""
         sig = f"pub fn {fn_label}({arm['params']}{extra}) -> (r: {arm['ret']})"
         segs.insert(0, Seg(sig + " ", ("ins", fn_label, "arm-signature", None)))
-        ctx.fire("ARM", sf, toks[it.body_open].start, f"arm {fs.opts['arm_state']} / {fs.opts['arm_pat']} sliced into {fn_label}")
+        ctx.fire("ARM", sf, toks[it.body_open].start, f"arm {fs.opts.get('arm_state', 'loop ' + str(fs.opts.get('slice_loop')))} / {fs.opts.get('arm_pat', 'body')} sliced into {fn_label}")
     attrs = "".join(a + "\n" for a in fs.attrs)
     if attrs:
         segs.insert(0, Seg(attrs, ("ins", fn_label, "attr", None)))
